@@ -357,7 +357,7 @@ def detail(c):
 def judge_cases(res, cases, note):
     for k, c in enumerate(cases):
         c["id"] = k
-    j = U.judge_total("Judge_C15", [record(c) for c in cases], per_shard_min=100, timeout=1500)
+    j = judge("Judge_C15", [record(c) for c in cases], per_shard_min=100, timeout=1500)
     res.add_judge("Judge_C15", j, note)
     for cid, clause in j["rejected"]:
         c = cases[int(cid)]
@@ -378,6 +378,8 @@ def run(tier, seed):
         if r.violation:
             raise TLCError("design check MC_EvalMatch failed: %s\n%s" % (r.violation, r.out[-2000:]))
 
+    import time
+    t_mc = time.time()
     oks, nA = oks_cases(tier, rng)
     for c in oks:
         observe_oks(c)
@@ -389,9 +391,11 @@ def run(tier, seed):
     ipairs, n_iou_all = iou_cases(tier, rng)
     ious = [observe_iou(a, b) for a, b in ipairs]
     cases = oks + match + assign + ious
-    judge_cases(res, cases, "compute_oks %d (one-node lattice sweep %d), match_instances %d (exhaustive level matrices %d), hungarian+greedy %d, compute_iou %d"
+    t_obs = time.time()
+    jj = judge_cases(res, cases, "compute_oks %d (one-node lattice sweep %d), match_instances %d (exhaustive level matrices %d), hungarian+greedy %d, compute_iou %d"
                 % (len(oks), nA, len(match), n_match_exh, len(assign), len(ious)))
 
+    res.coverage["phase_s"] = dict(model_checking=round(t_mc - res.t0, 1), run_real_code=round(t_obs - t_mc, 1), judge=round(time.time() - t_obs, 1))
     # harness sanity: what was enumerated is what was meant to be enumerated
     expect_match = sum((5 ** (G * P)) * len(weak_orders(P)) * 2 for G in range(3) for P in range(3))
     if n_match_exh != expect_match:
